@@ -22,7 +22,7 @@ func init() {
 	Register(&Monitor{
 		ID:         "C06",
 		Level:      "exploration",
-		Exhaustive: []string{"deep", "long", "huge", "mixed", "fnargs", "utf8edge"},
+		Exhaustive: []string{"deep", "long", "huge", "mixed", "fnargs", "utf8edge", "regexlits"},
 		Rule: "every recursive construct of the grammar nested to depth 10, 10^2, ... up to the tier's maximum ( ((((1)))), a[a[a[...]]], not(not(...)), -(-(...)), a/((((b)))) - the parseStep/parseSequence cycle -, a/(a/(a/(...))), unterminated a/((((, f(f(f(...))), (a|(a|(...))) ) and every iterative construct to length 3*10^k (a/a/..., 1+1+..., a|a|..., a or a ..., a[1][1]..., a//a..., f(1,1,...), -----1, long names, long strings, long numbers), each through Compile, CompileWithNS (nil, empty, bound, unbound maps) and MustCompile; " +
 			"every ORDERED PAIR of recursive constructs alternating (a[not(a[not(...)])], (a[(a[...])]), f(-(f(-(...)))), ...) to depth 6..1000 - a build step that repeats work per level turns such inputs into a hang; namespace maps with the empty string and malformed strings as keys; " +
 			"grammar-generated valid expressions and their truncations at every byte; every function name x every list of 0-3 arguments over 9 argument kinds (number, string, path, boolean call, invalid regex, parenthesised and negated literals, variable, comparison); seeded random token strings over the token alphabet plus arbitrary bytes (NUL, invalid UTF-8, non-ASCII name characters). The worker's maximum goroutine stack is lowered to 64 MiB so that unbounded recursion surfaces at depth ~10^5. " +
@@ -40,6 +40,7 @@ func init() {
 			{CPUBudget: 40, Name: "fuzz", N: tierN(1000, 40000), Run: c06Fuzz},
 			{CPUBudget: 40, Name: "fnargs", N: func(string) int { return len(xgen.AllFuncs) }, Run: c06FnArgs},
 			{CPUBudget: 40, Name: "utf8edge", N: func(string) int { return 160 }, Run: c06UTF8Edge},
+			{CPUBudget: 30, Name: "regexlits", N: func(string) int { return len(c06RegexLits()) }, Run: c06RegexLit},
 		},
 	})
 }
@@ -426,4 +427,46 @@ func c06Mixed(c *Case) {
 	c.SampleEvery(41, func() interface{} {
 		return map[string]interface{}{"family": "mixed", "outer": a[0], "inner": b[0], "depth": d, "bytes": len(src)}
 	})
+}
+
+// c06RegexLits: constant patterns are compiled by Compile itself (the check of issue #92), so every string literal
+// in the pattern position of matches()/replace() is an input of Compile too: boundary shapes of regular expressions
+// (dangling escapes, unterminated classes / groups / repetitions, Perl and POSIX classes, XPath-only escapes, deep
+// nesting, huge repetition counts, very long patterns). Totality is all that is asked: a value or an error, soon.
+func c06RegexLits() []string {
+	base := []string{"\\", "a\\", "\\\\", "a\\\\\\", "\\i", "\\c", "\\I\\C", "[\\", "[a\\", "(?", "(?i", "(?P<", "(?P<n>", "(?P<n>a)", "a{", "a{1", "a{1,", "a{1,2", "a{2,1}", "a{1001}", "a{1000}{1000}", "(a{1000}){1000}",
+		"\\p{", "\\p{L", "\\p{Nope}", "\\pL", "\\x{", "\\x{110000}", "\\x4", "[[:", "[[:alpha:]", "[[:alpha:]]", "[[:nope:]]", "[a-", "[a-]", "[]a]", "[^]", "[]", "\\Q", "\\Qab", "\\Qab\\E", "x*+", "x**", "a|*", "^*", "$*", "$+", "{", "}", ")", "]",
+		"\\8", "(a)\\1", "\\b\\B\\A\\z\\Z", "(?i)(?s)(?m)(?U)a", "(?i-s:a)", "(?#c)", "(?=a)", "(?!a)", "(?<=a)", "a++", "a?+", "\\C", "\\X", "\\R", "\\h", "\\0", "\\07", "\\_", "\\-", "\u00e9\\", "\xff", "\xc3\\",
+		"", " ", "a b", "\t", "\n", ".", "^$", "()", "(|)", "|", "||", "(a|)", "[\\d-z]", "[z-a]", "\\d{2,3}?", "(a*)*", "(a*)+$", "(a|aa)*b"}
+	var out []string
+	out = append(out, base...)
+	for _, n := range []int{10, 100, 999, 1000, 1001, 5000, 100000} {
+		out = append(out, strings.Repeat("(", n)+"a"+strings.Repeat(")", n), strings.Repeat("(", n), strings.Repeat("a", n), strings.Repeat("a|", n)+"a", strings.Repeat("[", n), strings.Repeat("\\", n), strings.Repeat("\\", n)+"\\",
+			strings.Repeat("a?", n)+strings.Repeat("a", n), strings.Repeat("(a|b)*", n), "a{"+fmt.Sprint(n)+"}", "(a{"+fmt.Sprint(n)+"}){"+fmt.Sprint(n)+"}", strings.Repeat("(?i)", n)+"a", strings.Repeat("(?:", n)+"a"+strings.Repeat(")", n))
+	}
+	return out
+}
+
+func c06RegexLit(c *Case) {
+	pat := c06RegexLits()[c.Index]
+	if strings.Contains(pat, "'") {
+		return
+	}
+	q := "'" + pat + "'"
+	for _, src := range []string{"matches('x', " + q + ")", "replace('x', " + q + ", 'y')", "//a[matches(@h, " + q + ")]", "matches(" + q + ", 'x')", "replace('x', (" + q + "), " + q + ")",
+		"matches('x', concat(" + q + ", ''))", "count(//*[replace(., " + q + ", '$1') = ''])", "matches('x', \"" + pat + "\")"} {
+		if strings.Contains(src, "\"") && strings.Contains(pat, "\"") {
+			continue
+		}
+		c.Count("regexlits")
+		c.c06Check(src, "regexlits")
+		if c.Violated() {
+			return
+		}
+	}
+	show := pat
+	if len(show) > 40 {
+		show = show[:20] + fmt.Sprintf("...(%d bytes)", len(pat))
+	}
+	c.SampleEvery(13, func() interface{} { return map[string]interface{}{"family": "regexlits", "pattern": show} })
 }
